@@ -2,9 +2,9 @@ ID = "C09"
 LEVEL = "model_checking"
 MIRSYM = "C09"
 BOUNDS = ("handle_recv_message / unparse_error for any first byte and arrays of 1..2 (quick) / 1..3 (thorough) elements whose parsers accept or reject independently and whose "
-          "response ids are ANY u64; handle_frontend_messages on every message variant and resume point with every transport-send outcome; the read-error arm: every variant of the receive error; the routing step for a pending subscribe next to an active one (any ids)")
+          "response ids are ANY u64; handle_frontend_messages on every message variant and resume point with every transport-send outcome; the read-error arm: every variant of the receive error; the routing step for a pending subscribe next to an active one (any ids); read_task for three loop rounds")
 EXPLANATION = ("Symbolic execution of the rustc MIR (overflow checks on) of the client's receive path and of the send handler: every rustc overflow assertion, unwrap/expect, "
-               "unreachable! and modelled char-boundary panic is a proof obligation for arbitrary peer-controlled numbers; a failed send must surface as Err on every path, and a failed read stores its cause for every waiting caller. A pending subscribe's channel is completed whatever id the server answers with.")
+               "unreachable! and modelled char-boundary panic is a proof obligation for arbitrary peer-controlled numbers; a failed send must surface as Err on every path, and a failed read stores its cause for every waiting caller. A pending subscribe's channel is completed whatever id the server answers with. read_task stops cleanly only on the closing of the channel it reports its outcome on (never the queue to the send task, which is closed before a send failure is reported).")
 TRUSTED = ["rustc MIR dump", "z3 / cvc5", "serde_json parsers (uninterpreted)", "handlers process_* are covered by C03/C05/C12 and are recorded calls here"]
 OUTSIDE = ["which error a racing caller observes / is_connected / timeouts (task interleavings of tokio)", "send_task closes the front-end queue before the cause is stored (observation only: a race)",
            "read_task / send_task select! loops and wait_for_shutdown (tokio scheduling)"]
